@@ -136,9 +136,56 @@ def check_unless(ctx, rng):
     return None
 
 
+def check_multi(ctx, rng):
+    """Several assertions (text on one line, on several lines, or through add_sub_spec): the final ';' may be omitted, the
+    assertions may be separated by blanks or newlines - same printed specification and same results."""
+    from .. import modular
+    c = modular.gen_case(rng, F.ALL_DISCRETE_OFFLINE - {"fn"}, "offd", with_consts=False)
+    c["unit_mode"] = None
+    lines = ["%s = %s" % (nm, modular.render_body(b, {})) for nm, b in c["defs"]]
+    names = [nm for nm, _ in c["defs"][:-1]]
+    vs, data, n = c["vars"], c["data"], c["n"]
+
+    def run(text, subs=()):
+        def go():
+            s = impl.make_spec("offd", text, vs, extra_decl=names, sub_specs=list(subs))
+            s.parse()
+            ds = {"time": list(range(n))}
+            ds.update({v: list(data[v]) for v in vs})
+            return s.spec_print(), [p[1] for p in s.evaluate(ds)]
+        return impl.guarded(go)
+    base_text = ";\n".join(lines) + ";"
+    base = run(base_text)
+    variants = [("no final ';', one per line", ";\n".join(lines), ()),
+                ("one line", "; ".join(lines) + ";", ()),
+                ("one line, no final ';'", "; ".join(lines), ()),
+                ("blank lines", ";\n\n".join(lines) + ";", ())]
+    if len(lines) > 1:
+        variants.append(("add_sub_spec, no final ';'", lines[-1], [l + ";" for l in lines[:-1]]))
+        variants.append(("add_sub_spec", lines[-1] + ";", [l + ";" for l in lines[:-1]]))
+    rep = {"kind": "multi", "base": base_text, "data": data, "n": n, "vars": vs, "names": names, "impl_base": base}
+    if base[0] != "ok":
+        return Violation("multi-assertion specification raised %r: %r" % (base[1:], base_text), rep, stream="spell/multi")
+    for what, text, subs in variants:
+        ctx.evaluations += 1
+        ctx.count("multi:" + what)
+        out = run(text, subs)
+        ctx.nontrivial.add((base_text, what))
+        rep2 = dict(rep, variant=what, text=text, subs=list(subs), impl=out)
+        if out[0] != "ok":
+            return Violation("variant (%s) of a multi-assertion specification is rejected (%r): %r [sub-specs %r]; with every ';' "
+                             "and one assertion per line it evaluates" % (what, out[1:], text, list(subs)), rep2, stream="spell/multi")
+        if out[1][0] != base[1][0] or not same_vals(out[1][1], base[1][1]):
+            return Violation("variant (%s) %r differs from %r: %r vs %r" % (what, text, base_text, out[1], base[1]), rep2,
+                             stream="spell/multi")
+    return None
+
+
 def explore(ctx, rng, count):
     for i in range(count):
-        if i % 5 == 4:
+        if i % 5 == 3:
+            v, d = check_multi(ctx, rng), None
+        elif i % 5 == 4:
             ctx.evaluations += 1
             ctx.count("unless-sugar")
             v, d = check_unless(ctx, rng), None
@@ -168,6 +215,18 @@ def replay(ctx, obj):
     scratch = Ctx(ctx.id, ctx.tier, ctx.seed)
     data = {k: [float(x) for x in v] for k, v in obj["data"].items()}
     vs = sorted(data)
+    if obj.get("kind") == "multi":
+        def run(text, subs=()):
+            def go():
+                s = impl.make_spec("offd", text, obj["vars"], extra_decl=obj["names"], sub_specs=list(subs))
+                s.parse()
+                ds = {"time": list(range(obj["n"]))}
+                ds.update({v: list(data[v]) for v in obj["vars"]})
+                return s.spec_print(), [p[1] for p in s.evaluate(ds)]
+            return impl.guarded(go)
+        b, o = run(obj["base"]), run(obj.get("text", obj["base"]), obj.get("subs", ()))
+        ok = b[0] == "ok" and o[0] == "ok" and b[1][0] == o[1][0] and same_vals(b[1][1], o[1][1])
+        return ok, ("variant agrees" if ok else "variant differs: %r vs %r" % (o, b))
     if obj.get("kind") == "unless":
         l, r = stl_eval(obj["lhs"], vs, data, obj["n"]), stl_eval(obj["rhs"], vs, data, obj["n"])
         ok = l[0] == "ok" and r[0] == "ok" and l[1][0] == r[1][0] and same_vals(l[1][1], r[1][1])
@@ -184,7 +243,7 @@ def replay(ctx, obj):
 
 
 def run(ctx):
-    explore(ctx, ctx.subrng("spell"), ctx.budget(150, 2500))
+    explore(ctx, ctx.subrng("spell"), ctx.budget(300, 4000))
 
 
 def search(ctx):
